@@ -76,7 +76,9 @@ def _run(ctx):
         for r, a in hits:
             fa = [x[1] for x in r['ctx'] if x[0] == 'forall']
             every_stmt = any(('enumerate(p1)' == f or f == 'p1') for f in fa)
-            every_promise = any('minimum_value_promises' in f and not any(b in f for b in ('skip(', 'take(', 'rev(')) for f in fa)
+            # .. the promises of the statement being walked (`each(statements)` or `statements[i]` with the loop index), not those of a fixed member
+            every_promise = any('minimum_value_promises' in f and not any(b in f for b in ('skip(', 'take(', 'rev(')) and
+                                ('each(p1' in f or 'p1[idx(' in f) and "p1['first']" not in f and 'p1[0]' not in f for f in fa)
             # the only condition on the path to the test is the `bits < 64` half of the guard itself
             only_bits = unconditional(r, lambda x: (x[0] == 'cmp' and x[1] == 'Le' and x[3].isdigit() and 'gens_capacity' in x[2]) or
                                       (x[0] == 'succ' and 'minimum_value_promises' in x[1]))        # the test applies to Some(promise) only
@@ -84,7 +86,10 @@ def _run(ctx):
                       'the promise range guard covers every statement of the batch and every Some promise', 'the promise range guard ranges over %s' % fa, ctx.where(cons, r['guard'].bb))
             bits = "p1['first'].generators.bp_gens.gens_capacity"
             idiom = a[1] == 'Le' and a[3] == '0' and ' Shr ' in a[2]
-            if not idiom:
+            if not idiom and a[1] == 'Le' and a[3].lstrip('-').isdigit() and ' Shr ' in a[2] and a[2].startswith('('):
+                rep.violation('R-C07-4', 'R-C07-4/range-guard/constants', 'promise guard accepts (promise >> bits) <= %s: promises up to %d * 2^bits - 1 pass' % (a[3], int(a[3]) + 1),
+                              ctx.where(cons, r['guard'].bb))
+            elif not idiom:
                 from .common import bound_verdict
                 from bpsa.terms import T as _T
                 c0 = r['guard'].cond
